@@ -63,7 +63,8 @@ def _gen_vmax(rng, C, small=False):
     kind = rng.choice(["scalar", "scalar", "scalar1", "list", "list", "list_same"])
     if rng.random() < 0.06:
         # column volumes that are no whole number of microlitres (187.5 uL, a measured 250.7 uL)
-        x = rng.choice([187.5, 250.7, 100.6, 99.5, 333.3, 15.9 + 100, rng.randint(100, hi) + rng.choice([0.5, 0.25, 0.7, 0.9])])
+        x = rng.choice([187.5, 250.7, 100.6, 99.5, 333.3, 15.9 + 100, rng.randint(100, hi) + rng.choice([0.5, 0.25, 0.7, 0.9]),
+                        187.537, 1000 / 3, 250.125, 99.999, rng.randint(100, hi) + rng.choice([0.005, 0.123, 0.3337])])
         return x if rng.random() < 0.6 else [x] + [rng.choice(pool) for _ in range(C - 1)]
     if kind == "scalar":
         return rng.choice(pool + [rng.randint(100, hi)])
@@ -131,6 +132,14 @@ def _gen_params(rng, small, tier="quick"):
         vmax = [first] + [rng.choice([30, 40, 50, 100, first]) for _ in range(C - 1)]
         min_transfer = rng.choice([20, 20, 25, 10])
         mode = rng.choice(["log", "log", "linear"])
+    if rng.random() < 0.012:
+        # a column volume just above x.5 uL, a stock at the highest concentration and a min_transfer between the
+        # whole microlitres below and above that volume: the only whole-microlitre transfer that reaches xmax is
+        # larger than the column, the largest one that fits is smaller than min_transfer
+        x = rng.choice([187.5, 250.7, 99.5, 100.6, rng.randint(100, 1000) + rng.choice([0.5, 0.7, 0.9])])
+        vmax = x if rng.random() < 0.6 else [x] + [rng.choice([100, 200, 300]) for _ in range(C - 1)]
+        stock = xmax * rng.choice([1, 1, 1.0000001])
+        min_transfer = int(math.floor(x)) + 1
     return {"xmin": xmin, "xmax": xmax, "R": R, "C": C, "stock": stock, "mode": mode, "vmax": vmax, "min_transfer": min_transfer}
 
 
